@@ -230,6 +230,80 @@ def suite_stability(report, tier, seed, prop="C19"):
     report.obligation("mon:stability", "monitor", mon_ok, "waits follow min(base*2^k, max) with k restarting only after a connection that outlived the stability period")
 
 
+def suite_client_inbound(report, tier, seed, prop="C05"):
+    """Inbound publishes at the client level (MqttClientImpl on top of the engine): a read may carry valid
+    publishes followed by something the engine rejects; the messages of that read are still surfaced, and a QoS 2
+    message is surfaced exactly once across a session-resuming reconnect."""
+    rng = Rng(seed, "client-inbound")
+    n = 40 if tier == "quick" else 1500
+    from gv import harness_batch
+    reqs, metas = [], []
+    for i in range(n):
+        v5 = True
+        qos = rng.choice([0, 1, 2, 2, 2])
+        pid = rng.choice([1, 7, 300])
+        payload = bytes([0x6d, i & 0xFF])
+        topic = b"in/1"
+        body = bytes([0, len(topic)]) + topic + (bytes([pid >> 8, pid & 0xFF]) if qos else b"") + b"\x00" + payload
+        publish = frame(0x30 | (qos << 1), body)
+        dup_publish = frame(0x38 | (qos << 1), body)
+        bad = rng.choice([("unknown-puback", frame(0x40, bytes([0, 99]))), ("unknown-suback", frame(0x90, bytes([0, 98, 0, 0]))),
+                          ("second-connack", bytes([0x20, 3, 0, 0, 0])), ("none", b""), ("unknown-pubcomp", frame(0x70, bytes([0, 97])))])
+        same_read = rng.chance(0.7)
+        session = ["cli.new v=5 policy=all jitter=none base=1000 max=2000000000 stable=0 | ka=60 cid=x63",
+                   "cli.op op=start", "cli.transition to=Connecting", "cli.transition to=Connected", "cli.svc cap=4096", "cli.wc",
+                   "cli.data b=x2003000000"]
+        if same_read:
+            session.append(f"cli.data b={hexs(publish + bad[1])}")
+        else:
+            session.append(f"cli.data b={hexs(publish)}")
+            if bad[1]:
+                session.append(f"cli.data b={hexs(bad[1])}")
+        first_reads = len(session)
+        if bad[0] != "none":
+            # the drivers tear the connection down after the error and reconnect; the server still has the session
+            session += ["cli.transition to=PendingReconnect lasted=5", "cli.advance rand=0", "cli.transition to=Connecting",
+                        "cli.transition to=Connected", "cli.svc cap=4096", "cli.wc", "cli.data b=x2003010000"]
+            if qos == 2:
+                session += [f"cli.data b={hexs(dup_publish)}", "cli.svc cap=4096", "cli.wc"]
+        metas.append((len(reqs) + 1, qos, pid, bad[0], same_read, first_reads, session))
+        reqs.append("session.reset")
+        reqs += session
+    impl = harness_batch(reqs)
+    model = driver_batch(reqs)
+    corr_ok, mon_ok = True, True
+    for (pos, qos, pid, bad, same_read, first_reads, session) in metas:
+        outs = impl[pos:pos + len(session)]
+        mouts = model[pos:pos + len(session)]
+        report.case("|".join(session))
+        report.traces_validated += 1
+        report.count(f"client-inbound.qos{qos}.{bad}.{'same-read' if same_read else 'separate'}")
+        for j, (l, a, b) in enumerate(zip(session, outs, mouts)):
+            if l.startswith("cli.advance"):
+                continue
+            if canon_comps(a) != canon_comps(b):
+                corr_ok = False
+                report.add_finding(Finding(prop, "corr:client-inbound", {"clause": "model-vs-impl", "verb": l.split(" ")[0]},
+                                           "client inbound: implementation and model disagree", session[:j + 1] + ["# impl: " + a[:300], "# model: " + b[:300]], has_input=False))
+                break
+        surfaced_first = sum(resp_fields(o)[0].get("events", "").split(",").count(f"Publish.{qos}") for o in outs[:first_reads])
+        surfaced_all = sum(resp_fields(o)[0].get("events", "").split(",").count(f"Publish.{qos}") for o in outs)
+        if any(o.startswith("res=panic") for o in outs):
+            mon_ok = False
+            report.add_finding(Finding(prop, "mon:client-inbound", {"clause": "panic"}, "client panicked on inbound data", session))
+        elif surfaced_first != 1:
+            mon_ok = False
+            report.add_finding(Finding(prop, "mon:client-inbound", {"clause": "message-not-surfaced", "qos": qos},
+                                       f"an inbound QoS {qos} publish delivered {'in the same read as' if same_read else 'before'} a rejected packet ({bad}) was surfaced {surfaced_first} times",
+                                       session[:first_reads] + ["# impl: " + outs[first_reads - 1][:300]]))
+        elif qos == 2 and surfaced_all != 1:
+            mon_ok = False
+            report.add_finding(Finding(prop, "mon:client-inbound", {"clause": "qos2-exactly-once"},
+                                       f"a QoS 2 message was surfaced {surfaced_all} times across a session-resuming reconnect", session))
+    report.obligation("corr:client-inbound", "correspondence", corr_ok, f"{len(reqs)} client-sim calls")
+    report.obligation("mon:client-inbound", "monitor", mon_ok, "messages of a read are surfaced even when a later packet of that read is rejected; QoS 2 exactly once across resumed reconnect")
+
+
 # ------------------------------------------------------------------------------------------------
 # lifecycle (C12)
 # ------------------------------------------------------------------------------------------------
